@@ -284,6 +284,19 @@ def atom_function(name, timeout_ms=None, vc_slice=None):
     return rep
 
 
+def wheel_tags(timeout_ms=None):
+    """C18: parse_wheel_tags over file names as '-'-joins of dash-free fields"""
+    from pyvc import extract, verify
+    from pyvc.theories.wheel import WheelTheory
+    from contracts import wheel_tags as W
+    ix = extract.Index()
+    th = WheelTheory(ix)
+    rep = verify.verify_cases(ix, th, W.Q, list(W.cases(th)), timeout_ms=timeout_ms)
+    rep.functions[W.Q]["hash"] = ix.func(W.Q).source_hash()
+    rep.functions[W.Q]["mode"] = "verified against its contract"
+    return rep
+
+
 # ---------------------------------------------------------------- C10
 MEMO_WHITELIST = {
     # lazy cache of MarkerExpression: only read through `specifier`, which fills it from _get_specifier() (a function of the compared
